@@ -95,6 +95,13 @@ void vf::run_case(Src &s, Ctx &c)
         throw Skip{std::string("parameter value rejected: ") + e.what()};
     }
     c.count(tuned.empty() ? "params:defaults" : "params:tuned");
+    // decoded last, so that saved cases (which end before this byte) keep their meaning: a quarter of the cases get a budget from the top of
+    // the range - the informed-tree planners only start their forward search after a batch of samples and a reverse search
+    if (s.chance(64))
+    {
+        budget = std::max(budget, (long)(s.real(1000, 4000) * pi.budgetScale));
+        c.count("budget:boosted");
+    }
     c.note("planner=%s seed=%u budget=%ld range=%.4g%s%s\n%s", pi.name, seed, budget, range, tuned.empty() ? "" : " params:", tuned.c_str(), P->str().c_str());
     c.count(std::string("planner:") + pi.name);
     c.count(std::string("scenario:") + scenarioName(P->scenario));
